@@ -140,10 +140,12 @@ def __eval_macro_factory(
         string = string.replace(key, replaced)
     try:
         number = eval_expr(string)
-    except (TypeError, SyntaxError):
+    except (TypeError, SyntaxError, ValueError, RecursionError):
         raise EvaluationException(string)
     except ZeroDivisionError:
         raise EvaluationException(string, "ZeroDivisionError")
+    except OverflowError:
+        raise EvaluationException(string, "OverflowError")
     new_token = Token(
         TokenType.KEYWORD, line=line, col=col, string=number, _macro_length=len(number)
     )
